@@ -380,6 +380,21 @@ func (s *Sched) schedule(from *Thread) {
 		en := s.enabledThreads(from)
 		if s.draining {
 			if len(en) == 0 {
+				// a thread that is merely asleep is not stuck: let Sleep timers (only
+				// those) elapse, so that what is left at the end is blocked for good
+				var next *timer
+				for _, tm := range s.timers {
+					if tm.active && tm.sleeper != nil && (next == nil || tm.deadline < next.deadline) {
+						next = tm
+					}
+				}
+				if next != nil {
+					if next.deadline > s.clock {
+						s.clock = next.deadline
+					}
+					s.fire(next)
+					continue
+				}
 				s.leaks = s.liveThreads()
 				for _, tm := range s.timers {
 					if tm.active {
